@@ -223,11 +223,11 @@ def run(ctx):
                 "second projection, homothetic ellipsoid, angle-object arguments, explicit natural zone, Projection clone of utm; the "
                 "0.01-degree longitude lattice for the zone rule (every 7th value in quick); distinct = distinct (kind, stratum, "
                 "inputs); the repository tests convert ~130 Australian points on GRS80/UTM")
-    ctx.assumptions += ["NOT decided: 0.2 mm exactness off the central meridian (needs the exact TM): only the necessary conditions "
-                        "above; a defect that keeps the map symmetric, homogeneous and correct on the axes is visible to C02 (closure "
-                        "against the independently typed inverse series), not here",
-                        "exactness of the central-meridian northing against the meridian arc is decided in C02/C14 through closure, "
-                        "see DESIGN"]
+    ctx.assumptions += ["exactness (0.2 mm) is decided on the rational-trigonometry lattice: central meridian against MeridianArc, off the "
+                        "central meridian (1.8 .. 28 deg both sides) against the exact projection evaluated in the specification "
+                        "(KruegerTM: neglected terms < 4e-6 m within 30 deg); elsewhere by the relational laws (mirror, homothety, "
+                        "projection scaling), which tie every sampled position to the lattice",
+                        "the shipped ellipsoids are judged on their PUBLISHED constants (spec/Ellipsoids.tla) in the TM events"]
 
 
 def replay(ctx, data, prop="C01"):
